@@ -41,7 +41,7 @@ RTAtoms ==
   \cup {[oneOf |-> q] : q \in {<<>>, <<IntS>>, <<IntS, [minimum |-> R_2]>>}}
   \cup {[prefixItems |-> q] : q \in {<<>>, <<IntS>>}}
   \cup {[itemsArray |-> q] : q \in {<<>>, <<IntS>>}}
-  \cup {[required |-> q] : q \in {<<>>, <<"a">>}}
+  \cup {[required |-> q] : q \in {<<>>, <<"a">>, <<"a", "b", "a">>, <<"b", "b">>}}
   \cup {[types |-> q] : q \in {<<>>, <<"integer">>, <<"null", "string">>, <<"number">>, <<"number", "null">>, <<"integer", "number">>}}
   \cup {[type |-> "number"]}
   \cup {[defs |-> m] : m \in {EmptyFcn, [x |-> IntS], [x |-> FalseS]}}
@@ -51,6 +51,8 @@ RTAtoms ==
   \cup {[patternProperties |-> m] : m \in {EmptyFcn, ("^a" :> IntS)}}
   \cup {[dependentRequired |-> m] : m \in {EmptyFcn, [a |-> <<>>], [a |-> <<"b">>]}}
   \cup {[dependentSchemas |-> m] : m \in {EmptyFcn, [a |-> FalseS]}}
+  \* (2020-12: the two dependent* keywords are independent - one property name may occur in both)
+  \cup {[dependentRequired |-> [a |-> <<"b">>], dependentSchemas |-> [a |-> [required |-> <<"b">>], b |-> FalseS]]}
   \cup {[depSchemas |-> m] : m \in {EmptyFcn, [a |-> FalseS]}}
   \cup {[depStrings |-> m] : m \in {EmptyFcn, [b |-> <<"a">>], [b |-> <<>>]}}
   \cup {[const |-> c] : c \in {Null, Num(R_0), Str(""), Bool(FALSE), EmptyArr, EmptyObj, Num(R_2p63), Num(R_2p53)}}
@@ -178,6 +180,14 @@ DKTitled(deco) == [anyOf |-> <<StrS @@ deco, [type |-> "string", minLength |-> 3
 DKTitledCases == {[base |-> DKTitled(EmptyFcn), s |-> DKTitled(d), raw |-> FALSE, uri |-> EmptyURI]
                     : d \in {[title |-> "t"], [title |-> "t", description |-> "d"], [comment |-> "c"]}}
                  \cup {[base |-> DKTitled(EmptyFcn), s |-> DKTitled(EmptyFcn), raw |-> FALSE, uri |-> EmptyURI]}
+\* one resource embedded TWICE (same $id, same content - what a bundler that inlines references leaves behind),
+\* the decoration in only one of the copies: still one meaning
+DKTwice(d1, d2) ==
+  [properties |-> [a |-> [ref |-> Ref(RelRef(<<"item.json">>), FragNone)]],
+   defs |-> [p |-> [id |-> IdOf(RelRef(<<"item.json">>)), type |-> "integer"] @@ d1,
+             q |-> [id |-> IdOf(RelRef(<<"item.json">>)), type |-> "integer"] @@ d2]]
+DKTwiceCases == {[base |-> DKTwice(EmptyFcn, EmptyFcn), s |-> DKTwice(x[1], x[2]), raw |-> ("rawkeys" \in DOMAIN x[1] \/ "rawkeys" \in DOMAIN x[2]), uri |-> DKChainURI]
+                   : x \in ((DKDecos \cup DKRaw) \X {EmptyFcn}) \cup ({EmptyFcn} \X (DKDecos \cup DKRaw)) \cup {<<EmptyFcn, EmptyFcn>>}}
 DKOk(c) == c.s # c.base
 
 \* ------------------------------------------------------------ RD: documents (C05, other direction)
@@ -262,7 +272,7 @@ Cases == CASE Family = "PO" -> POCases
            [] Family = "DK" -> {c \in DKCases \cup DKChainCases : DKOk(c)}
                                \cup {[base |-> b, s |-> b, raw |-> FALSE, uri |-> EmptyURI] : b \in DKBases}
                                \cup {[base |-> DKChain(EmptyFcn), s |-> DKChain(EmptyFcn), raw |-> FALSE, uri |-> DKChainURI]}
-                               \cup DKVendorCases \cup DKRemoteCases \cup DKTitledCases
+                               \cup DKVendorCases \cup DKRemoteCases \cup DKTitledCases \cup DKTwiceCases
 
 Init == cs \in Cases /\ phase = "new"
 Next == phase = "new" /\ phase' = "done" /\ cs' = cs
